@@ -29,6 +29,35 @@ func clone(x interface{}) interface{} {
 	return y
 }
 
+// cloneTyped copies a value keeping its Go types (core.Map, []string, int, ...).
+func cloneTyped(x interface{}) interface{} {
+	switch v := x.(type) {
+	case core.Map:
+		m := core.Map{}
+		for k, e := range v {
+			m[k] = cloneTyped(e)
+		}
+		return m
+	case map[string]interface{}:
+		m := map[string]interface{}{}
+		for k, e := range v {
+			m[k] = cloneTyped(e)
+		}
+		return m
+	case []interface{}:
+		a := make([]interface{}, len(v))
+		for i, e := range v {
+			a[i] = cloneTyped(e)
+		}
+		return a
+	case []string:
+		a := make([]string, len(v))
+		copy(a, v)
+		return a
+	}
+	return x
+}
+
 // goTyped rewrites a JSON value with Go types the matcher has to cast:
 // core.Map for maps, []string for all-string arrays, int for integral numbers.
 func goTyped(x interface{}) interface{} {
@@ -118,7 +147,7 @@ func main() {
 		if via == "gotyped" {
 			pin, din = goTyped(p), goTyped(d)
 		}
-		pcopy, dcopy, bcopy := clone(pin), clone(din), clone(b0)
+		pcopy, dcopy, bcopy := cloneTyped(pin), cloneTyped(din), clone(b0)
 		bs := core.Bindings{}
 		for k, v := range b0 {
 			bs[k] = clone(v)
@@ -130,7 +159,8 @@ func main() {
 		} else {
 			bss, err = core.Match(ctx, pin, din, bs)
 		}
-		mut := !reflect.DeepEqual(clone(pin), pcopy) || !reflect.DeepEqual(clone(din), dcopy) ||
+		// type-sensitive: a core.Map or []string the caller passed in is still one afterwards
+		mut := !reflect.DeepEqual(pin, pcopy) || !reflect.DeepEqual(din, dcopy) ||
 			!reflect.DeepEqual(clone(map[string]interface{}(bs)), bcopy)
 		res := make([]interface{}, 0, len(bss))
 		for _, b := range bss {
